@@ -275,6 +275,58 @@ def rule_zero_tuple0(ctx, M, family, rule, expect_kind):
               sample={"returns": [(r[0], r[1]) for r in rets]})
 
 
+def rule_vec_assume_init(ctx, M, rule):
+    """`vec_assume_init(v: Vec<MaybeUninit<T>>) -> Vec<T>` hands back the very same elements, in place:
+       (a) `ptr::read(&v as *const _ as *const Vec<T>)` of the argument (+ forget), or
+       (b) `Vec::from_raw_parts(v.as_mut_ptr() as *mut T, v.len(), v.capacity())` - pointer, LENGTH, CAPACITY of the argument in
+           that order (swapped, a Vec of zero-sized items claims usize::MAX elements), or
+       (c) `v.into_iter().map(|s| s.assume_init()).collect()`."""
+    n = 0
+    for x in M.F.bodies:
+        if x.name != "vec_assume_init" or x.kind != "Fn":
+            continue
+        n += 1
+        bi = M.info(x)
+
+        def from_arg(t, depth=0):
+            while t is not None and depth < 12:
+                if t == ("param", 1):
+                    return True
+                if t[0] == "cast":
+                    t = t[2]
+                elif t[0] == "call" and t[2] and t[1][1] in ("new", "deref", "deref_mut", "as_mut_ptr", "as_ptr", "cast", "as_mut", "as_ref"):
+                    t = t[2][0]
+                elif t[0] in ("field", "variant", "index"):
+                    t = t[1]
+                else:
+                    return False
+                depth += 1
+            return False
+        ok = False
+        reads = [s for s in bi.sites if s.callee.name == "read"]
+        frp = [s for s in bi.sites if s.callee.name == "from_raw_parts"]
+        rets = flow.returned_values(bi)
+        if len(reads) == 1 and not frp:
+            ok = from_arg(reads[0].arg(0))
+        elif len(frp) == 1 and not reads:
+            a0, a1, a2 = frp[0].arg(0), frp[0].arg(1), frp[0].arg(2)
+            ok = (from_arg(a0) and a1 is not None and a1[0] == "call" and a1[1][1] == "len" and from_arg(a1[2][0])
+                  and a2 is not None and a2[0] == "call" and a2[1][1] == "capacity" and from_arg(a2[2][0]))
+            ok = ok and len(rets) == 1 and rets[0][3][0] == "call" and rets[0][3][3] == frp[0].block
+        elif not reads and not frp and len(rets) == 1:
+            t = rets[0][3]
+            if t[0] == "call" and t[1][1] in ("collect", "from_iter") and t[2] and t[2][0][0] == "call" and t[2][0][1][1] == "map":
+                src = t[2][0][2][0]
+                while src[0] == "call" and src[1][1] in ("into_iter", "by_ref") and src[2]:
+                    src = src[2][0]
+                cl = [y for y in M.F.bodies if y.kind == "Closure" and y.root == x.def_]
+                if src == ("param", 1) and len(cl) == 1:
+                    cr = flow.returned_values(M.info(cl[0]))
+                    ok = len(cr) == 1 and cr[0][3][0] == "call" and cr[0][3][1][1] == "assume_init" and cr[0][3][2] and cr[0][3][2][0] == ("param", 2)
+        ctx.check(ok, rule, x.def_, "vec_assume_init hands back the argument's own elements in place (pointer, length, capacity in that order)", site=x.span)
+    return n
+
+
 def rule_ext(ctx, M, trait_suffix, method, family_trait_method, rule):
     """FutureExt/StreamExt::<method>(self, other) == Family::<method>((self, other))"""
     found = 0
